@@ -384,9 +384,12 @@ class Closure:
         return out
 
 
-def graph_features(snap, sigs, root):
+def graph_features(snap, sigs, root, kwarg_clash_is_finding=True):
     """Features of the call graph reachable from `root` that put it outside the fragment in
-    which C03 is a theorem of the pinned code (each corresponds to one known finding)."""
+    which C03 is a theorem of the pinned code (each corresponds to one known finding).
+    `kwarg_clash_is_finding=False` (additive, C03 round 3): a keyword spelled like a positional-only /
+    *args / **kwargs parameter of a callee with **kwargs is DIAGNOSED by the pinned code (a C04 row) but
+    bound as Python binds it, so it is no excuse for a wrong closure."""
     resolve = {c: k for c, k in snap["resolve"]}
     feats = set()
     visits = {}
@@ -426,7 +429,7 @@ def graph_features(snap, sigs, root):
             else:
                 kw_keys = [k for k, _ in c["kwargs"]]
                 clash = [p["name"] for p in sig["posonly"]] + [x for x in (sig["vararg"], sig["kwarg"]) if x]
-                if sig["kwarg"] and any(k in clash for k in kw_keys):
+                if kwarg_clash_is_finding and sig["kwarg"] and any(k in clash for k in kw_keys):
                     feats.add("c04-binding-finding")          # accepted call diagnosed 'by position and name'
                 if len(c["args"]) < len(sig["posonly"]):
                     feats.add("c04-binding-finding")          # omitted positional-only parameter with a default
@@ -444,9 +447,48 @@ FEATURE_PRIORITY = ["compound-argument", "same-call-on-two-paths", "base-not-roo
                     "c04-binding-finding"]
 
 
-def judge_results(snap, sigs, impl_round):
+def unroll_once(snap, sigs, root):
+    """(additive, C03 round 3) ONE UNROLLING of every call cycle below `root`: what is derivable along the
+    call paths from `root` that visit no function twice, plus — where a path calls a function already on
+    it — that function's OWN accesses once more under the bindings of the whole path.
+    -> dict kind -> set of full names."""
+    resolve = {c: k for c, k in snap["resolve"]}
+    cl0 = Closure(snap, sigs, 0)
+    memo = {}
+
+    def own(k):
+        f = snap["fns"][k]
+        return {kind: {n[0] for n in f[kind]} for kind in ("gets", "sets", "dels")}
+
+    def go(k, path, d):
+        key = (k, path)
+        if key in memo:
+            return memo[key]
+        out = own(k)
+        if d <= 12:
+            for c in snap["fns"][k]["calls"]:
+                g = resolve.get(c["cid"])
+                if not isinstance(g, int):
+                    continue
+                b = python_binding(cl0.sig_of(g), c)
+                if b is None:
+                    continue
+                sub = own(g) if g in path else go(g, path | {g}, d + 1)
+                for kind in out:
+                    for full in sub[kind]:
+                        s = subst(b, full, root_var(full))
+                        if s is not None:
+                            out[kind].add(s[0])
+        memo[key] = out
+        return out
+
+    return go(root, frozenset([root]), 0)
+
+
+def judge_results(snap, sigs, impl_round, unroll=False, kwarg_clash_is_finding=True):
     """C03 oracle on the implementation's results. Yields (root key, verdict) where verdict is None
-    or a violation signature + detail."""
+    or a violation signature + detail.  `unroll=True` (additive): under recursion the lower bound is
+    `unroll_once` (one unrolling in the function and in every caller) instead of one call level."""
     n = len(snap["fns"])
     cl = Closure(snap, sigs, 2 * n + 2)
     cl1 = Closure(snap, sigs, 1)
@@ -457,7 +499,9 @@ def judge_results(snap, sigs, impl_round):
         k = r["key"]
         want = cl.derive(k, 2 * n + 2)
         low = cl1.derive(k, 1)
-        feats = graph_features(snap, sigs, k)
+        feats = graph_features(snap, sigs, k, kwarg_clash_is_finding=kwarg_clash_is_finding)
+        if unroll and "cycle" in feats:
+            low = {kind: {(f, None) for f in v} for kind, v in unroll_once(snap, sigs, k).items()}
         cyc = "cycle" in feats
         bad = None
         for kind in ("gets", "sets", "dels"):
